@@ -192,3 +192,101 @@ func VerifC11Par() {
 	verifnd.Assert(countType(newc.drain(), hagallpb.MsgType_MSG_TYPE_ENTITY_UPDATE_POSE_BROADCAST) == 1, "C11.par.member_pose_relayed")
 	verifnd.Reach("C11.par.done")
 }
+
+// VerifC11Components: component updates go through the same frame scheduler (coalesced per (type, entity)):
+// the subscriber sees the sequence numbers of each component strictly increasing and, after two more frames,
+// the latest one; the stored component is the latest one.
+func VerifC11Components() {
+	w := newVWorld(0)
+	own, obs := w.newConn(), w.newConn()
+	obs.mustJoin("")
+	own.mustJoin(obs.sid)
+	e1 := own.addEntity(false, &hagallpb.Pose{})
+	e2 := own.addEntity(false, &hagallpb.Pose{})
+	m := own.expectOne(&hagallpb.EntityComponentTypeAddRequest{Type: hagallpb.MsgType_MSG_TYPE_ENTITY_COMPONENT_TYPE_ADD_REQUEST, Timestamp: vts(), RequestId: 8, EntityComponentTypeName: vTypeName},
+		hagallpb.MsgType_MSG_TYPE_ENTITY_COMPONENT_TYPE_ADD_RESPONSE, "setup.type_add")
+	var tr hagallpb.EntityComponentTypeAddResponse
+	m.DataTo(&tr)
+	tid := tr.EntityComponentTypeId
+	obs.expectSubscribe(tid)
+	for _, e := range []uint32{e1, e2} {
+		own.expectOne(&hagallpb.EntityComponentAddRequest{Type: hagallpb.MsgType_MSG_TYPE_ENTITY_COMPONENT_ADD_REQUEST, Timestamp: vts(), RequestId: 10, EntityComponentTypeId: tid, EntityId: e, Data: []byte{0}},
+			hagallpb.MsgType_MSG_TYPE_ENTITY_COMPONENT_ADD_RESPONSE, "setup.comp_add")
+	}
+	w.drainAll()
+	steps := 3
+	if verifnd.Tier() == 1 {
+		steps = 4
+	}
+	seq := byte(0)
+	latest := map[uint32]byte{e1: 0, e2: 0}
+	pend := map[uint32]byte{}
+	seen := map[uint32]byte{e1: 0, e2: 0}
+	flush := func() {
+		for e, v := range pend {
+			latest[e] = v
+			delete(pend, e)
+		}
+	}
+	observe := func() {
+		for _, msg := range obs.drain() {
+			if typeNum(msg) != int32(hagallpb.MsgType_MSG_TYPE_ENTITY_COMPONENT_UPDATE_BROADCAST) {
+				verifnd.Assert(false, "C11.comp.only_updates_relayed")
+				continue
+			}
+			var b hagallpb.EntityComponentUpdateBroadcast
+			msg.DataTo(&b)
+			c := b.EntityComponent
+			verifnd.Assert(c != nil && c.EntityComponentTypeId == tid && (c.EntityId == e1 || c.EntityId == e2) && len(c.Data) == 1, "C11.comp.well_formed")
+			if c != nil && len(c.Data) == 1 && (c.EntityId == e1 || c.EntityId == e2) {
+				verifnd.Assert(c.Data[0] > seen[c.EntityId], "C11.comp.never_reordered_or_repeated")
+				seen[c.EntityId] = c.Data[0]
+			}
+		}
+	}
+	for i := 0; i < steps; i++ {
+		switch verifnd.Choice(4) {
+		case 0: // an update of one of the two components, or of a component that does not exist
+			e := e1
+			switch verifnd.Choice(3) {
+			case 1:
+				e = e2
+			case 2:
+				e = 4242
+			}
+			seq++
+			own.dispatch(&hagallpb.EntityComponentUpdate{Type: hagallpb.MsgType_MSG_TYPE_ENTITY_COMPONENT_UPDATE, Timestamp: vts(), EntityComponentTypeId: tid, EntityId: e, Data: []byte{seq}})
+			if e != 4242 {
+				pend[e] = seq
+			}
+		case 1:
+			verifnd.FireTickers(vFrame)
+			flush()
+		case 2:
+			own.pump()
+		case 3:
+			verifnd.FireTickers(vFrame)
+			flush()
+			own.pump()
+		}
+		observe()
+	}
+	verifnd.FireTickers(vFrame)
+	flush()
+	own.pump()
+	verifnd.FireTickers(vFrame)
+	own.pump()
+	observe()
+	lm := obs.expectOne(&hagallpb.EntityComponentListRequest{Type: hagallpb.MsgType_MSG_TYPE_ENTITY_COMPONENT_LIST_REQUEST, Timestamp: vts(), RequestId: 5, EntityComponentTypeId: tid},
+		hagallpb.MsgType_MSG_TYPE_ENTITY_COMPONENT_LIST_RESPONSE, "setup.list")
+	var lr hagallpb.EntityComponentListResponse
+	lm.DataTo(&lr)
+	verifnd.Assert(len(lr.EntityComponents) == 2, "C11.comp.two_components_stored")
+	for _, c := range lr.EntityComponents {
+		verifnd.Assert(len(c.Data) == 1 && c.Data[0] == latest[c.EntityId], "C11.comp.latest_stored")
+	}
+	for _, e := range []uint32{e1, e2} {
+		verifnd.Assert(seen[e] == latest[e], "C11.comp.latest_relayed")
+	}
+	verifnd.Reach("C11.comp.done")
+}
